@@ -23,6 +23,11 @@ const (
 	dataDirName       = ".ergo"
 	plansFileName     = "plans.jsonl"
 	oldEventsFileName = "events.jsonl" // Legacy name, kept for backwards compatibility
+
+	// maxEventLineBytes is the longest log line readEvents accepts. newEvent
+	// refuses to build an event that would become a longer line: a line no
+	// reader can take in makes every later command fail.
+	maxEventLineBytes = 10 * 1024 * 1024
 )
 
 func resolveErgoDir(start string) (string, error) {
@@ -121,8 +126,6 @@ func readEvents(path string) ([]Event, error) {
 		return nil, err
 	}
 	defer file.Close()
-
-	const maxEventLineBytes = 10 * 1024 * 1024
 
 	var events []Event
 	scanner := bufio.NewScanner(file)
